@@ -181,6 +181,20 @@ struct Oracle {
     peaks: HashMap<&'static str, u64>,
 }
 
+
+/// Contents and physical layout (partitions -> batches -> rows) of the generated tables, so that a witness can be
+/// replayed without the generator. Tables beyond `max_rows` rows in total are only described by seed + config.
+fn tables_json(ds: &Dataset, max_rows: usize) -> Json {
+    let total: usize = (0..4).map(|i| ds.table(i).iter().flatten().map(|b| b.num_rows()).sum::<usize>()).sum();
+    if total > max_rows {
+        return json!(format!("{total} rows: regenerate with dfv::sched::Dataset::new(dataset_seed, dataset)"));
+    }
+    let dump = |t: &Vec<Vec<arrow::record_batch::RecordBatch>>| -> Json {
+        json!(t.iter().map(|p| p.iter().map(|b| dfv::value::rows_to_json(&dfv::engine::batches_to_rows(std::slice::from_ref(b)))).collect::<Vec<_>>()).collect::<Vec<_>>())
+    };
+    json!({"columns": ["id BIGINT NOT NULL", "k BIGINT NOT NULL", "v BIGINT", "s VARCHAR NOT NULL"], "t1": dump(&ds.t1), "t2": dump(&ds.t2), "ts (declared ORDER BY k, id)": dump(&ds.ts), "tb": dump(&ds.tb)})
+}
+
 fn witness(ds: &Dataset, dcfg: &DatasetCfg, fam: &Family, k: &Knobs, o: Option<&Obs>, expected: Option<&Vec<Row>>, what: &str) -> Json {
     json!({
         "family": fam.name, "sql": fam.sql, "settings": fam.settings.iter().map(|(a, b)| format!("{a}={b}")).collect::<Vec<_>>(), "target_partitions": fam.target_partitions,
@@ -191,6 +205,7 @@ fn witness(ds: &Dataset, dcfg: &DatasetCfg, fam: &Family, k: &Knobs, o: Option<&
             "finished": o.finished, "spill_count": o.spills, "peak_reserved": o.peak, "after_release": o.after.to_json(),
             "sample_rows": rows_to_json(&o.rows[..o.rows.len().min(5)])})),
         "expected_rows": expected.map(|e| e.len()), "what": what,
+        "table_contents": tables_json(ds, 2500),
         "replay": format!("c18 C18 --opt only={}", fam.name),
     })
 }
